@@ -35,9 +35,16 @@ CONSTANTS NNode,      \* nodes of database "1" are 0..NNode-1
           WeakAdds,   \* TRUE = the code as it is: pickling a weak reference to an object without oid
                       \*        gives it an oid and queues it for storing (comment in persistent_id)
           NCand, CandSize,  \* simulation only: number / expected size of candidate edge sets
-          Lifecycle   \* TRUE: the life-cycle actions of the loading connection B are part of Next
+          Lifecycle,  \* TRUE: the life-cycle actions of the loading connection B are part of Next
+          Savepoints, MaxSp,  \* TRUE: Savepoint / Rollback(k) are part of Next; bound on live savepoints
+          Touches,    \* TRUE: TouchElsewhere (the loading connection changes and commits an object) is part of Next
+          \* deviations: TRUE = the code as it is (TLC then exhibits the violated property), FALSE = the repaired design
+          SavepointOrphans,           \* a commit copies EVERY record of the savepoint store, reachable or not
+          Py2Remap,                   \* broken.find_global renames py2 stdlib module names in every record it reads
+          BrokenContainerUnloadable,  \* a missing list / dict subclass in a state makes the owner unloadable
+          BrokenReduceLosesArgs       \* a placeholder built by Class(*args) is written back as Class.__new__(*args)
 
-VARIABLES kinds,      \* class kind of every node: "plain" | "newargs" | "gone" | "gonenew"
+VARIABLES kinds,      \* class kind of every node: "plain" | "newargs" | "gone" | "gonenew" | "py2mod"
           cand,       \* <<src, edge>> pairs AddEdge may choose from (all of them when model checking)
           mem,        \* connection A, in memory: node -> set of out-edges
           hasOid,     \* nodes with _p_oid/_p_jar set in connection A
@@ -45,17 +52,23 @@ VARIABLES kinds,      \* class kind of every node: "plain" | "newargs" | "gone" 
           dirty,      \* stored nodes changed since their last commit (registered with the transaction)
           stored,     \* database "1": node -> [p |-> record present, e |-> edges in the record]
           packed,     \* a pack with gc ran: connection A is not used any more
+          touched,    \* the loading connection committed a change: connection A edits no more
+          txn,        \* connection A's transaction: savepoint store (TmpStore) and savepoints, see Txn0
           ops, commits,
           bconn,      \* the loading connection B of database "1" (pooled): [st, gen, hgen, pend]
           res,        \* the last operation (and what the replay must observe about B)
           obs         \* derived: ObsOf(kinds, stored)
 
-vars == <<kinds, cand, mem, hasOid, added, dirty, stored, packed, ops, commits, bconn, res, obs>>
+vars == <<kinds, cand, mem, hasOid, added, dirty, stored, packed, touched, txn, ops, commits, bconn, res, obs>>
 
 Nodes == 0..(NNode - 1)
 Root == 0
 Targets == Nodes \cup FNodes
 EdgeT == [dst : Targets, kind : {"strong", "weak"}, holder : Holders]
+\* holders of the driver: direct list dict deep (plain containers); glist gdict (instance of a MISSING list / dict
+\* subclass holding the reference); rvalue (instance of a MISSING value class built by Class(reference), i.e.
+\* pickled with REDUCE); rlost = an rvalue after a placeholder wrote it back as Class.__new__(reference)
+RecEdgeT == [dst : Targets, kind : {"strong", "weak"}, holder : Holders \cup {"rlost"}]
 SrcEdge == Nodes \X EdgeT
 Absent == [p |-> FALSE, e |-> {}]
 Rec(es) == [p |-> TRUE, e |-> es]
@@ -65,6 +78,10 @@ FKindOf(f) == IF f % 2 = 0 THEN "plain" ELSE "newargs"
 KindOf(k, t) == IF t \in FNodes THEN FKindOf(t) ELSE k[t]
 HasNewArgs(c) == c \in {"newargs", "gonenew"}        \* hasattr(klass, '__getnewargs__')
 Gone(c) == c \in {"gone", "gonenew"}                 \* class not importable where the record is read
+\* "py2mod": an ordinary, importable class whose module is called like a Python 2 stdlib module ('Queue')
+\* a record is read as a placeholder (ZODB.broken) if its class is missing - or, deviation, renamed away
+Placeholder(c) == Gone(c) \/ (Py2Remap /\ c = "py2mod")
+Unloadable(es) == BrokenContainerUnloadable /\ \E e \in es : e.holder \in {"glist", "gdict"}
 
 (* ------------- ObjectWriter.persistent_id: the reference written -------- *)
 \* "w"  ['w', (oid,)]            weak, same database
@@ -106,11 +123,12 @@ PackedStore(k, st) == [n \in Nodes |-> IF n \in Live(k, st) THEN st[n] ELSE Abse
 \* cross-database-references.rst): import is judged on exports made of ordinary references only
 ExportSet(k, st, n) == IF st[n].p THEN {x \in ReachFrom(k, st, {n}) : st[x].p} ELSE {}
 Importable(k, st, n) == /\ st[n].p
-                        /\ \A m \in ExportSet(k, st, n) : \A e \in st[m].e : Format(k, e) \in {"oc", "o"}
+                        /\ \A m \in ExportSet(k, st, n) : \A e \in st[m].e :
+                              /\ Format(k, e) \in {"oc", "o"} /\ e.holder # "rlost" /\ st[e.dst].p
 
 ObsOf(k, st) ==
   [view |-> [n \in Nodes |->
-               [p |-> st[n].p,
+               [p |-> st[n].p, broken |-> Placeholder(k[n]), loadable |-> ~Unloadable(st[n].e),
                 e |-> {[dst |-> e.dst, kind |-> e.kind, holder |-> e.holder, fmt |-> Format(k, e),
                         alive |-> IF e.dst \in FNodes THEN TRUE ELSE st[e.dst].p] : e \in st[n].e}]],
    refs |-> [n \in Nodes |-> Extracted(k, st[n].e)],
@@ -121,7 +139,9 @@ ObsOf(k, st) ==
 (* ------------------------------ initial states -------------------------- *)
 Empty == [n \in Nodes |-> {}]
 Store0 == [n \in Nodes |-> IF n = Root THEN Rec({}) ELSE Absent]
-BRes(name, reused, same, fresh) == [op |-> name, out |-> "ok", reused |-> reused, same |-> same, fresh |-> fresh]
+\* orphans / dangling / lost: what the property monitor of the replay reports for this step (sets of nodes)
+BRes(name, reused, same, fresh) == [op |-> name, out |-> "ok", reused |-> reused, same |-> same, fresh |-> fresh,
+                                    orphans |-> {}, dangling |-> {}, lost |-> {}]
 Op(name) == BRes(name, FALSE, FALSE, FALSE)
 
 (* ------------- the loading connection B through its life-cycle ---------- *)
@@ -146,11 +166,19 @@ BStep(op, b) ==
     [] op = "ResetCaches" -> [b |-> [b EXCEPT !.pend = TRUE], res |-> Op(op)]
     [] OTHER -> [b |-> b, res |-> Op(op)]        \* MinimizeAllB, MinimizeSomeB, AbortB: nothing may change
 
+(* ------------- connection A's transaction: savepoints -------------------- *)
+\* on   a savepoint store (Connection._savepoint_storage, a TmpStore over the storage) is in use
+\* tmp  its records; cre its `creating` (objects that have no committed record); sps the live savepoints, each
+\*      the (index, creating) the store had; xadd objects add()ed in this transaction (for the property only)
+NoRecs == [n \in Nodes |-> Absent]
+Txn0 == [on |-> FALSE, tmp |-> NoRecs, cre |-> {}, sps |-> <<>>, xadd |-> {}]
+Overlay(base, t) == [n \in Nodes |-> IF t[n].p THEN t[n] ELSE base[n]]
+
 InitWith(k, c, m, ad) ==
   /\ kinds = k /\ cand = c /\ mem = m
   /\ added = ad /\ hasOid = {Root} \cup ad
   /\ dirty = IF m[Root] = {} THEN {} ELSE {Root}
-  /\ stored = Store0 /\ packed = FALSE /\ ops = 0 /\ commits = 0
+  /\ stored = Store0 /\ packed = FALSE /\ touched = FALSE /\ txn = Txn0 /\ ops = 0 /\ commits = 0
   /\ bconn = B0
   /\ res = Op("init")
   /\ obs = ObsOf(k, Store0)
@@ -173,7 +201,7 @@ InitGraphs == \E k \in KindAssignments : \E g \in GraphsUpTo(MaxEdges) : \E ad \
 
 (* --------------------------------- actions ------------------------------ *)
 NEdges == Cardinality(UNION {{<<n, e>> : e \in mem[n]} : n \in Nodes})
-Editing == ~packed /\ ops < MaxOps
+Editing == ~packed /\ ~touched /\ ops < MaxOps
 Touch(s) == IF s \in hasOid /\ s \notin added THEN dirty \cup {s} ELSE dirty
 Step(name) == /\ ops' = ops + 1 /\ res' = Op(name)
 
@@ -184,7 +212,7 @@ AddEdge(s, d, k, h) ==
   /\ mem' = [mem EXCEPT ![s] = @ \cup {e}]
   /\ dirty' = Touch(s)
   /\ Step("AddEdge")
-  /\ UNCHANGED <<kinds, cand, hasOid, added, stored, packed, commits, bconn, obs>>
+  /\ UNCHANGED <<kinds, cand, hasOid, added, stored, packed, touched, txn, commits, bconn, obs>>
 
 RemoveEdge(s, d, k, h) ==
   LET e == [dst |-> d, kind |-> k, holder |-> h] IN
@@ -192,31 +220,75 @@ RemoveEdge(s, d, k, h) ==
   /\ mem' = [mem EXCEPT ![s] = @ \ {e}]
   /\ dirty' = Touch(s)
   /\ Step("RemoveEdge")
-  /\ UNCHANGED <<kinds, cand, hasOid, added, stored, packed, commits, bconn, obs>>
+  /\ UNCHANGED <<kinds, cand, hasOid, added, stored, packed, touched, txn, commits, bconn, obs>>
 
 \* connection.add(obj): oid and jar at once, stored by the next commit whether reachable or not
 ExplicitAdd(n) ==
   /\ Editing /\ n \notin hasOid
   /\ hasOid' = hasOid \cup {n} /\ added' = added \cup {n}
+  /\ txn' = [txn EXCEPT !.xadd = @ \cup {n}]
   /\ Step("ExplicitAdd")
-  /\ UNCHANGED <<kinds, cand, mem, dirty, stored, packed, commits, bconn, obs>>
+  /\ UNCHANGED <<kinds, cand, mem, dirty, stored, packed, touched, commits, bconn, obs>>
 
 CommitSet == Closure(mem, hasOid, dirty \cup added)
+Carries(e) == e.kind = "strong" \/ WeakAdds
+\* what a set of seed objects reaches through the records of a store
+RECURSIVE CarryReach(_, _)
+CarryReach(st, S) ==
+  LET T == S \cup {e.dst : e \in {x \in UNION {st[n].e : n \in {y \in S : st[y].p}} : x.dst \in Nodes /\ Carries(x)}}
+  IN IF T = S THEN S ELSE CarryReach(st, T)
+Dangling(st) == {d \in Nodes : ~st[d].p /\ \E n \in Nodes : st[n].p /\ d \in OrdinaryRefs(st[n].e)}
+
+\* Connection.savepoint(): _commit() into the TmpStore - the same closure as a commit; new objects go to `creating`
+Flushed == [n \in Nodes |-> IF n \in CommitSet THEN Rec(mem[n]) ELSE txn.tmp[n]]
+FlushedCre == txn.cre \cup {n \in CommitSet : ~stored[n].p}
+Savepoint ==
+  /\ Savepoints /\ Editing /\ Len(txn.sps) < MaxSp
+  /\ (txn.on \/ dirty \cup added # {})          \* connection A has joined the transaction
+  /\ txn' = [txn EXCEPT !.on = TRUE, !.tmp = Flushed, !.cre = FlushedCre,
+                         !.sps = Append(@, [tmp |-> Flushed, cre |-> FlushedCre])]
+  /\ hasOid' = hasOid \cup CommitSet /\ dirty' = {} /\ added' = {}
+  /\ Step("Savepoint")
+  /\ UNCHANGED <<kinds, cand, mem, stored, packed, touched, commits, bconn, obs>>
+
+\* savepoint.rollback(): Connection._rollback_savepoint - registered objects are invalidated (add()ed ones
+\* disowned), objects created after the savepoint are disowned (they keep what they hold in memory), the store is
+\* reset and everything it held is invalidated: owned objects show the savepoint's state; later savepoints die.
+\* Not taken while an object that is about to be disowned is registered as changed: abort then invalidates it
+\* first and its only state is lost - property C11, not this one.
+Rollback(k) ==
+  /\ Savepoints /\ Editing /\ k \in 1..Len(txn.sps)
+  /\ LET sp == txn.sps[k]
+         D == (txn.cre \ sp.cre) \cup added
+         keep == hasOid \ D IN
+     /\ (txn.cre \ sp.cre) \cap dirty = {}
+     /\ hasOid' = keep
+     /\ mem' = [n \in Nodes |-> IF n \in keep THEN Overlay(stored, sp.tmp)[n].e ELSE mem[n]]
+     /\ txn' = [txn EXCEPT !.tmp = sp.tmp, !.cre = sp.cre, !.sps = SubSeq(@, 1, k), !.xadd = @ \ D]
+  /\ dirty' = {} /\ added' = {}
+  /\ Step("Rollback")
+  /\ UNCHANGED <<kinds, cand, stored, packed, touched, commits, bconn, obs>>
+
+\* commit: without savepoints the closure is stored; with savepoints the pending changes are flushed like a
+\* savepoint and _commit_savepoint copies the records of the savepoint store - all of them (SavepointOrphans)
 Commit ==
   /\ Editing
   /\ LET C == CommitSet
-         st == [n \in Nodes |-> IF n \in C THEN Rec(mem[n]) ELSE stored[n]] IN
+         full == Overlay(stored, Flushed)
+         just == CarryReach(full, {n \in Nodes : stored[n].p} \cup txn.xadd)
+         orph == {n \in Nodes : Flushed[n].p /\ ~stored[n].p /\ n \notin just}
+         st == IF SavepointOrphans THEN full ELSE [n \in Nodes |-> IF n \in orph THEN stored[n] ELSE full[n]] IN
      /\ stored' = st
-     /\ hasOid' = hasOid \cup C
+     /\ hasOid' = IF SavepointOrphans THEN hasOid \cup C ELSE (hasOid \cup C) \ orph
      /\ obs' = ObsOf(kinds, st)
-  /\ dirty' = {} /\ added' = {}
-  /\ commits' = commits + 1
-  /\ Step("Commit")
-  /\ UNCHANGED <<kinds, cand, mem, packed, bconn>>
+     /\ res' = [Op("Commit") EXCEPT !.orphans = IF SavepointOrphans THEN orph ELSE {}, !.dangling = Dangling(st)]
+  /\ dirty' = {} /\ added' = {} /\ txn' = Txn0
+  /\ commits' = commits + 1 /\ ops' = ops + 1
+  /\ UNCHANGED <<kinds, cand, mem, packed, touched, bconn>>
 
 \* a second connection (and its sibling in database "2") loads everything: judged against obs
 \* B is opened if it is not open (from the pool once it exists), else brought to a new transaction; it stays open
-GraphVars == <<kinds, cand, mem, hasOid, added, dirty, stored, packed, commits, obs>>
+GraphVars == <<kinds, cand, mem, hasOid, added, dirty, stored, packed, touched, txn, commits, obs>>
 BAction(op) == /\ ops' = ops + 1
                /\ bconn' = BStep(op, bconn).b /\ res' = BStep(op, bconn).res
                /\ UNCHANGED GraphVars
@@ -233,19 +305,37 @@ CloseB == Lifecycle /\ ops < MaxOps + 2 /\ bconn.st = "open" /\ BAction("CloseB"
 \* global ZODB.Connection.resetCaches(): takes effect when a pooled connection is opened again
 ResetCaches == Lifecycle /\ ops < MaxOps + 2 /\ ~bconn.pend /\ bconn.st # "none" /\ BAction("ResetCaches")
 
+\* the loading connection (where the "gone" classes are missing) sets an attribute of node n and commits: the record
+\* is written again from what that connection holds - placeholders of missing value classes included
+Rewritten(es) == {IF BrokenReduceLosesArgs /\ e.holder = "rvalue" THEN [e EXCEPT !.holder = "rlost"] ELSE e : e \in es}
+TouchElsewhere(n) ==
+  /\ Touches /\ ops < MaxOps + 2 /\ ~packed /\ commits > 0
+  /\ dirty = {} /\ added = {} /\ ~txn.on /\ bconn.st = "open"
+  /\ stored[n].p /\ ~Placeholder(kinds[n]) /\ ~Unloadable(stored[n].e)
+  /\ LET st == [stored EXCEPT ![n] = Rec(Rewritten(@.e))] IN
+     /\ stored' = st /\ obs' = ObsOf(kinds, st)
+     \* connection A (classes importable) re-reads the object at its next transaction
+     /\ mem' = [mem EXCEPT ![n] = {e \in st[n].e : e.holder # "rlost"}]
+     /\ res' = [Op("TouchElsewhere") EXCEPT !.lost = IF st[n] # stored[n] THEN {n} ELSE {}]
+  /\ touched' = TRUE /\ ops' = ops + 1
+  /\ UNCHANGED <<kinds, cand, hasOid, added, dirty, packed, txn, commits, bconn>>
+
 \* storage.pack(now, referencesf) with garbage collection, then nothing but loading
 Pack ==
-  /\ ~packed /\ commits > 0 /\ dirty = {} /\ added = {}
+  /\ ~packed /\ commits > 0 /\ dirty = {} /\ added = {} /\ ~txn.on
   /\ packed' = TRUE
   /\ stored' = PackedStore(kinds, stored)
   /\ obs' = ObsOf(kinds, stored')
   /\ Step("Pack")
-  /\ UNCHANGED <<kinds, cand, mem, hasOid, added, dirty, commits, bconn>>
+  /\ UNCHANGED <<kinds, cand, mem, hasOid, added, dirty, touched, txn, commits, bconn>>
 
 Next == \/ \E s \in Nodes, d \in Targets, k \in {"strong", "weak"}, h \in Holders : AddEdge(s, d, k, h)
         \/ \E s \in Nodes, d \in Targets, k \in {"strong", "weak"}, h \in Holders : RemoveEdge(s, d, k, h)
         \/ \E n \in Nodes : ExplicitAdd(n)
         \/ Commit
+        \/ Savepoint
+        \/ \E k \in 1..MaxSp : Rollback(k)
+        \/ \E n \in Nodes : TouchElsewhere(n)
         \/ LoadElsewhere
         \/ MinimizeAllB \/ MinimizeSomeB \/ AbortB \/ CloseB \/ ResetCaches
         \/ Pack
@@ -271,8 +361,10 @@ TypeOK ==
   /\ kinds \in KindAssignments /\ cand \subseteq SrcEdge
   /\ mem \in [Nodes -> SUBSET EdgeT]
   /\ hasOid \subseteq Nodes /\ added \subseteq hasOid /\ dirty \subseteq hasOid
-  /\ stored \in [Nodes -> [p : BOOLEAN, e : SUBSET EdgeT]]
-  /\ packed \in BOOLEAN
+  /\ stored \in [Nodes -> [p : BOOLEAN, e : SUBSET RecEdgeT]]
+  /\ packed \in BOOLEAN /\ touched \in BOOLEAN
+  /\ txn.on \in BOOLEAN /\ txn.cre \subseteq hasOid /\ txn.xadd \subseteq hasOid /\ Len(txn.sps) <= MaxSp
+  /\ (~txn.on => txn = [Txn0 EXCEPT !.xadd = txn.xadd])
   /\ obs = ObsOf(kinds, stored)
 
 \* reference extraction is exact: the format case analysis yields the ordinary references, nothing else
@@ -289,32 +381,49 @@ WeakTargetsStored == ~packed => \A n \in Nodes : \A e \in stored[n].e : e.dst \i
 
 \* round trip: what another connection loads (= the record) is what connection A holds, for every
 \* object A has not changed since its commit; an object with an oid is stored unless add()ed and pending
-RoundTrip == ~packed =>
-  /\ \A n \in hasOid \ added : stored[n].p
-  /\ \A n \in hasOid \ (added \cup dirty) : stored[n].e = mem[n]
+\* or created under a savepoint of the running transaction (then the savepoint store has it)
+Pending == added \cup txn.cre
+RoundTrip == (~packed /\ ~touched) =>
+  /\ \A n \in hasOid \ Pending : stored[n].p
+  /\ \A n \in hasOid \ (added \cup dirty) : Overlay(stored, txn.tmp)[n].e = mem[n]
+  /\ \A n \in txn.cre : txn.tmp[n].p
   /\ \A n \in Nodes \ hasOid : ~stored[n].p
-  /\ \A n \in added : ~stored[n].p
+  /\ \A n \in Pending : ~stored[n].p
   /\ stored[Root].p
 
 \* a pack with gc loses nothing reachable and keeps no garbage
 PackKeepsReachable == packed => {n \in Nodes : stored[n].p} = Live(kinds, stored)
 
-\* new objects are stored iff reachable from objects this commit stores, or added explicitly
-\* (paths written out, independent of the fixpoint in Closure; a weak edge counts iff WeakAdds)
-Carries(e) == e.kind = "strong" \/ WeakAdds
-PathTo(n) ==
+\* new objects are stored ONLY IF reachable from stored ones or added explicitly: every record a commit creates
+\* is reached, through the records now in the database, from an object that had a record before or was add()ed
+\* (paths written out, independent of the fixpoints in Closure / CarryReach; a weak edge counts iff WeakAdds).
+\* The IF direction is NoDanglingStrong / NoDanglingWeak.
+PathIn(st, S, n) ==
   \E len \in 1..NNode : \E p \in [1..len -> Nodes] :
-    /\ p[1] \in dirty \cup added /\ p[len] = n
-    /\ \A i \in 2..len : p[i] \notin hasOid
-    /\ \A i \in 1..(len - 1) : \E e \in mem[p[i]] : e.dst = p[i + 1] /\ Carries(e)
+    /\ p[1] \in S /\ p[len] = n
+    /\ \A i \in 1..len : st[p[i]].p
+    /\ \A i \in 1..(len - 1) : \E e \in st[p[i]].e : e.dst = p[i + 1] /\ Carries(e)
 IsCommit == commits' = commits + 1
 StoredIffReachableOrAdded ==
-  [][IsCommit => \A n \in Nodes \ (hasOid \ added) : (stored'[n].p <=> PathTo(n))]_vars
+  [][IsCommit => \A n \in Nodes : (stored'[n].p /\ ~stored[n].p) =>
+                    PathIn(stored', {m \in Nodes : stored[m].p} \cup txn.xadd, n)]_vars
 \* objects that are neither changed nor new keep their record
 CommitTouchesOnlyClosure ==
-  [][IsCommit => \A n \in Nodes : (n \in hasOid /\ n \notin dirty /\ n \notin added) => stored'[n] = stored[n]]_vars
+  [][IsCommit => \A n \in Nodes : (n \in hasOid /\ n \notin dirty /\ n \notin added /\ ~txn.tmp[n].p)
+                                     => stored'[n] = stored[n]]_vars
 \* nothing but a commit or a pack changes the database
-OnlyCommitAndPackStore == [][stored' # stored => (IsCommit \/ packed' # packed)]_vars
+OnlyCommitAndPackStore == [][stored' # stored => (IsCommit \/ packed' # packed \/ res'.op = "TouchElsewhere")]_vars
+\* nothing of a running transaction (savepoints included) is visible in the database
+SavepointsInvisible == [][res'.op \in {"Savepoint", "Rollback"} => stored' = stored /\ obs' = obs]_vars
+
+\* a class that is importable loads as itself; every stored object can be loaded; a change made by a connection that
+\* lacks a class leaves what it did not touch as it was (placeholders keep their state)
+PresentClassesLoad == \A n \in Nodes : (stored[n].p /\ obs.view[n].broken) => Gone(kinds[n])
+AllStoredLoad == \A n \in Nodes : stored[n].p => obs.view[n].loadable
+\* the same two, judged where the replay observes them
+LoadedClassesArePresent == res.op = "LoadElsewhere" => PresentClassesLoad
+LoadedAllLoad == res.op = "LoadElsewhere" => AllStoredLoad
+TouchKeepsRecords == [][res'.op = "TouchElsewhere" => stored' = stored]_vars
 
 BOK == /\ bconn.hgen <= bconn.gen /\ bconn.st \in {"none", "open", "closed"}
        /\ (bconn.st = "none" => bconn = B0)
@@ -322,5 +431,5 @@ BOK == /\ bconn.hgen <= bconn.gen /\ bconn.st \in {"none", "open", "closed"}
 \* held objects stay valid unless a reset cache generation intervened
 SameUnlessReset == [][(res'.op = "LoadElsewhere" /\ bconn.hgen >= 0) => (res'.same <=> bconn'.gen = bconn.hgen)]_vars
 
-View == <<kinds, cand, mem, hasOid, added, dirty, stored, packed, ops, commits, bconn, res>>
+View == <<kinds, cand, mem, hasOid, added, dirty, stored, packed, touched, txn, ops, commits, bconn, res>>
 =============================================================================
